@@ -1,5 +1,5 @@
 """C03 - no entry is served after its expiry deadline."""
-import storecheck
+import storecheck, persistcheck
 
 KINDS = dict(storecheck.KF_KINDS)
 KINDS["served_after_deadline_under_stalled_policy_lock"] = "D9-stale-cached-clock-under-stalled-policy-lock"
@@ -9,13 +9,21 @@ def classify(kind, tid, line):
     return KINDS.get(kind)
 
 
+def extra(work, v, thorough):
+    # entries restored by LoadCache: what the loaded cache serves before its first tick (PersistTrace)
+    res, _ = persistcheck.trace_part(work, v, "C03", 60 if thorough else 10, 0, {})
+    return {"loads_with_gets_after_load": res["loads"], "_traces": res["traces"]}
+
+
 PLAN = {
     "mc": [("StoreMC_time_fresh.cfg", False)],
     "sims": [("StoreSim_seq.cfg", 150, 1200, 91), ("StoreSim_time.cfg", 150, 1200, 71)],
     "drivers": [("TestVerif_StoreTime", 60, 600, "store_time.ndjson", None),
                 ("TestVerif_StoreFree", 4, 30, "store_free.ndjson", None)],
     "classify": classify,
+    "extra": extra,
     "assumptions": [
+        "entries restored by LoadCache: after every clean load of the persistence driver each key is read before the first tick; a hit must be a saved entry whose deadline had not passed at load time (PersistTrace)",
         "virtual clock (hook in clock.NowNano); deadlines are recomputed by the observer as call time + TTL (saturating) and compared with what the code stored; a hit is late if deadline <= the time of the call (the weakest reading)",
         "nanosecond-grain scenarios stay below 2^30 ns (TLC integers); the 30 s look-ahead and the wheel levels are exercised at 2^20 ns grain",
         "model: StallOnly = TRUE means the ticker refreshes the cached clock every time unit unless it is kept waiting for the policy lock",
